@@ -5,6 +5,8 @@
   literal: `run st ls` for an arbitrary list `ls` of scheduler choices (disabled choices are skipped).
 -/
 import GocoinV.Proofs.C11
+import GocoinV.Proofs.C11Live
+import GocoinV.Proofs.C11Fan
 namespace GocoinV.Props.C11
 open GocoinV.Conc GocoinV.ConcEv GocoinV.Proofs.C11
 
@@ -50,11 +52,11 @@ example :
       (List.replicate 15 .m ++ [.sStep, .sBegin 1, .sStep, .sStep, .sStep, .sStep] ++ List.replicate 4 .m)
     st.mpc = .cMut1 ∧ st.s.isSome = true := by decide
 
-/-- (c) `snapshot_atomic`, proved part: in every reachable state in which the saver is about to read the header
-    (height, hash) or is iterating the maps, the (maps, header) pair is block-consistent (no commit is half
-    applied) and, by `mutation_excludes_saving`, stays untouched until `finito`. Hence header and every chunk
-    are read from one and the same block-consistent state. -/
-theorem snapshot_atomic_partial (mp : List Snap.MOp) (xp : List Snap.XOp) (cap : Nat) (ls : List Snap.Lab)
+/-- (c) In every reachable state in which the saver is about to read the header (height, hash) or is iterating
+    the maps, the (maps, header) pair is block-consistent (no commit is half applied) and, by
+    `mutation_excludes_saving`, stays untouched until `finito`. Hence header and every chunk are READ from one
+    and the same block-consistent state. -/
+theorem snapshot_reads_block_consistent (mp : List Snap.MOp) (xp : List Snap.XOp) (cap : Nat) (ls : List Snap.Lab)
     (sv : Snap.Saver) (hs : (Snap.run (Snap.init mp xp cap) ls).s = some sv) (hr : SnapP.reading sv = true) :
     (Snap.run (Snap.init mp xp cap) ls).stable = true := by
   have h := SnapP.inv_run _ ls (SnapP.inv_init mp xp cap)
@@ -64,12 +66,45 @@ theorem snapshot_atomic_partial (mp : List Snap.MOp) (xp : List Snap.XOp) (cap :
     have hm := h.2.2.2.1 hst
     have := h.2.2.1 sv hs (by simp [hm, SnapP.mCrit])
     simp [this] at hr
--- OPEN: snapshot_atomic — ∀ mp xp cap ls, ∀ v ∈ (Snap.run (Snap.init mp xp cap) ls).visible, v.good = true
---   (every file that reaches the name UTXO.db has all `tot` chunks, each read at the version of its header, and that
---   version was block-consistent). Missing: the bookkeeping invariants chaining saver → data_channel → file
---   goroutine → rename (chunk counts and pairing of saver and file goroutine). `Snap.check` evaluates exactly this
---   predicate; the oracle runs it on every explored schedule.
--- OPEN: no_deadlock — ∀ reachable st, Snap.final st ∨ Snap.hasStep st. Explored by the oracle only.
+
+/-- (c) `snapshot_atomic`: for every program of the main and the auxiliary goroutine, every data_channel capacity
+    and EVERY schedule, every file that reaches the name UTXO.db (`visible`) is good: its header was read in a
+    block-consistent state (`hst`), it holds exactly the `tot` chunks announced in the header, and every chunk was
+    read at the version of the header (`content.all (· == hv)`) — i.e. the chunks WRITTEN by the file goroutine, in
+    order, are exactly those read by the saver between header and `finito`; the rename happens only after the last
+    chunk and never after an abort. Covers saves racing with commits, AbortWriting, HurryUp, Close, a second save
+    starting while the previous file goroutine is still flushing, and the unordered `select` of the file goroutine. -/
+theorem snapshot_atomic (mp : List Snap.MOp) (xp : List Snap.XOp) (cap : Nat) (ls : List Snap.Lab)
+    (v : Snap.Visible) (hv : v ∈ (Snap.run (Snap.init mp xp cap) ls).visible) : v.good = true :=
+  (SnapC.fileInv_run _ ls (SnapP.inv_init mp xp cap) (SnapC.fileInv_init mp xp cap)).vis v hv
+
+/- non-vacuity: a schedule that makes a file visible (commit, Idle → save of 2 chunks → rename) -/
+example :
+    ((Snap.run (Snap.init [.commit, .idle] [] 2)
+      (List.replicate 15 .m ++ [.sStep, .sBegin 2, .sStep, .sStep, .sStep, .sStep, .fStep, .fStep, .fStep, .fStep])).visible
+        = [{ hv := 2, hst := true, tot := 2, content := [2, 2] }]) := by decide
+
+/-- (c) `no_deadlock`: every reachable state of the snapshot protocol whose data_channel has capacity ≥ 1 (the
+    source has `make(chan []byte, save_buffer_cnt)`, fact `dataChanBuffered`) is final (both programs finished,
+    no saver, no file goroutine) or has an enabled step — for all programs and all schedules. In particular
+    abortWriting's blocking send and its `writingDone.Wait()` under db.Mutex, Close's two waits, the saver waiting
+    for the previous file goroutine and the full data_channel never wait for each other in a cycle. -/
+theorem no_deadlock (st : Snap.St) (hr : Snap.Reachable st) (hcap : 0 < st.cap) :
+    Snap.final st = true ∨ Snap.hasStep st = true := by
+  obtain ⟨mp, xp, cap, ls, rfl⟩ := hr
+  exact SnapL.progress _
+    (SnapC.fileInv_run _ ls (SnapP.inv_init mp xp cap) (SnapC.fileInv_init mp xp cap))
+    (SnapL.ctl_run _ ls (SnapL.ctl_init mp xp cap)) hcap
+
+example : Snap.Reachable (Snap.run (Snap.init [.commit, .idle, .close] [.abort] 1) [.m, .m, .x]) ∧
+    0 < (Snap.run (Snap.init [.commit, .idle, .close] [.abort] 1) [.m, .m, .x]).cap :=
+  ⟨⟨_, _, _, _, rfl⟩, by decide⟩
+
+/-- (c) the capacity hypothesis of `no_deadlock` is necessary in the model: with an unbuffered data_channel modelled
+    as a queue of length 0 the saver can never hand over a chunk (the model has no rendez-vous). -/
+theorem no_deadlock_needs_capacity :
+    let st := Snap.run (Snap.init [.commit, .idle] [] 0) (List.replicate 15 .m ++ [.sStep, .sBegin 1])
+    Snap.final st = false ∧ Snap.hasStep st = false := by decide
 
 example : SnapP.reading { pc := .hdr } = true := rfl
 
@@ -90,12 +125,33 @@ theorem pub_read_after_publish (ls : List Pub.Lab) : (Pub.run {} ls).badRead = f
 /-- (a) commitTxs with the clone (`blUnsp[h] = slices.Clone(tx.TxOut)`, fact `cloned`): under every schedule of
     the main loop and the script workers the output arrays the workers read are never modified, so every
     worker computes its verdict from the block as received. -/
-theorem commit_schedule_independent_partial (f : Fan.Verify) (txs : List Fan.Tx) (ls : List Fan.Lab) :
+theorem commit_workers_read_unmodified (f : Fan.Verify) (txs : List Fan.Tx) (ls : List Fan.Lab) :
     (Fan.run f (Fan.init txs true) ls).mem = (Fan.init txs true).mem :=
   FanP.run_mem f _ ls rfl
--- OPEN: commit_schedule_independent — (Fan.run f (Fan.init txs true) ls).verdict = some v → v = Fan.reference f txs
---   (needs the counting invariant errCnt + failures still pending = failures among the spawned); the harness
---   compares `Fan.run` under random schedules with `Fan.reference` and with the real verdicts.
+
+/-- (a) `commit_schedule_independent`: with the clone, whatever the script check `f` computes from what it reads,
+    for every block and EVERY schedule of the main loop and the workers: once commitTxs has returned, its verdict
+    (early error, ver_err_cnt) is `Fan.reference f txs` — the first transaction at which the main loop fails and
+    the NUMBER of failing inputs before it, counted on the block as received. ver_err_cnt equals the number of
+    failing inputs under every schedule (no lost update, no worker still running at the return, also on the
+    early-return path with the deferred wg.Wait), so the verdict is a function of the input alone. -/
+theorem commit_schedule_independent (f : Fan.Verify) (txs : List Fan.Tx) (ls : List Fan.Lab)
+    (v : Option Nat × Nat) (h : (Fan.run f (Fan.init txs true) ls).verdict = some v) : v = Fan.reference f txs :=
+  (FanC.inv_run f txs _ ls (FanC.inv_init f txs)).verdict v h
+
+example :
+    let f : Fan.Verify := fun t j _ => !(t == 1 && j == 0)
+    let txs : List Fan.Tx := [⟨0, [], 1, false⟩, ⟨2, [], 1, false⟩, ⟨1, [(1, 0)], 1, false⟩]
+    (Fan.run f (Fan.init txs true) [.main, .main, .worker 1, .main, .worker 0, .worker 0, .main]).verdict = some (none, 1) := by
+  decide
+
+/-- (a) corollary: two schedules of the same block that both let commitTxs return give the same verdict. -/
+theorem commit_verdicts_agree (f : Fan.Verify) (txs : List Fan.Tx) (ls₁ ls₂ : List Fan.Lab)
+    (v₁ v₂ : Option Nat × Nat) (h₁ : (Fan.run f (Fan.init txs true) ls₁).verdict = some v₁)
+    (h₂ : (Fan.run f (Fan.init txs true) ls₂).verdict = some v₂) : v₁ = v₂ := by
+  rw [commit_schedule_independent f txs ls₁ v₁ h₁, commit_schedule_independent f txs ls₂ v₂ h₂]
+
+example : (Fan.run (fun _ _ _ => true) (Fan.init [] true) [.main]).verdict = some (none, 0) := by decide
 
 /-- (a) Without the clone the verdict DOES depend on the schedule: two schedules of the same block, one counts
     no script failure, the other one. -/
